@@ -4,7 +4,7 @@ through it is out of reach (DESIGN §6)."""
 import ast
 import time
 
-from checks.common import run_bounded, verifier
+from checks.common import prove, run_bounded, verifier
 from vlib.report import Ctx
 
 LEVEL = "exploration"
@@ -97,10 +97,31 @@ def unsanitised_extracts(ctx: Ctx) -> None:
                       signature=f"cke|{b['expression']}|{b['sanitize']}")
 
 
+JS = "ahbicht.json_serialization.tree_schema:"
+EN = "ahbicht.models.enums:RequirementIndicatorSchema."
+HOOKS = [JS + "TokenSchema.deserialize", JS + "TreeSchema.deserialize",
+         JS + "_TokenOrTreeSchema.prepare_tree_for_serialization#tree", JS + "_TokenOrTreeSchema.prepare_tree_for_serialization#token",
+         JS + "_TokenOrTreeSchema.deserialize#tree", JS + "_TokenOrTreeSchema.deserialize#token",
+         "ahbicht.models.evaluation_results:RequirementConstraintEvaluationResultSchema.deserialize",
+         "ahbicht.models.evaluation_results:FormatConstraintEvaluationResultSchema.deserialize",
+         "ahbicht.models.evaluation_results:AhbExpressionEvaluationResultSchema.deserialize",
+         "ahbicht.models.condition_nodes:EvaluatedFormatConstraintSchema.deserialize",
+         "ahbicht.models.categorized_key_extract:CategorizedKeyExtractSchema.deserialize",
+         EN + "post_dump", EN + "pre_load", EN + "post_load#modal", EN + "post_load#prefix"]
+
+
 def run(ctx: Ctx) -> None:
-    ctx.explanation = ("bounded round trips of every schema over small field domains and over objects the real code "
-                       "produces; plus ground conformance obligations attrs class <-> schema")
+    ctx.explanation = ("PROVED from the AST of the real hooks (contracts/serialization.py): every post_load constructor "
+                       "returns an object of its class whose attributes are exactly the loaded fields of the same names "
+                       "(nothing dropped, swapped, defaulted or coerced; null accepted where the class admits None); the "
+                       "tree wrapper hooks are inverse to each other (a sub-tree / token wrapped on dump is the object "
+                       "unwrapped on load); the requirement-indicator hooks write the upper-case value and load every "
+                       "member's value as that member. marshmallow's own field (de)serialisation and hook dispatch stay "
+                       "the assumed contract A-MARSHMALLOW, ContentEvaluationResultSchema.deserialize (enum coercion "
+                       "loop) is bounded only. BOUNDED: round trips of every schema over small field domains and over "
+                       "objects the real code produces; plus ground conformance obligations attrs class <-> schema")
     ctx.trust("A-MARSHMALLOW (field contracts)", "bounded: never counted as proved")
+    prove(ctx, HOOKS)
     ground_obligations(ctx)
     run_bounded(ctx, "C19")
     unsanitised_extracts(ctx)
